@@ -743,7 +743,73 @@ func heldWithCallers(w *World, in ssa.Instruction, isMutexVal func(ssa.Value) bo
 	}
 	obj, _ := f.Object().(*types.Func)
 	if obj == nil {
-		return false
+		// an anonymous function: held if every closure made of it is handed to a helper that runs its function
+		// parameter while holding the mutex (`s.withLock(func() { ... })`), or is called in a lock region
+		if f.Parent() == nil {
+			return false
+		}
+		nuse := 0
+		okAll := true
+		allInstrs(f.Parent(), func(pin ssa.Instruction) {
+			mc, ok := pin.(*ssa.MakeClosure)
+			if !ok || mc.Fn != ssa.Value(f) || mc.Referrers() == nil {
+				return
+			}
+			for _, ref := range *mc.Referrers() {
+				c, ok := ref.(ssa.CallInstruction)
+				if !ok {
+					if _, isDbg := ref.(*ssa.DebugRef); !isDbg {
+						okAll = false
+					}
+					continue
+				}
+				if _, isGo := c.(*ssa.Go); isGo {
+					okAll = false
+					continue
+				}
+				nuse++
+				if c.Common().Value == ssa.Value(mc) {
+					// called right here
+					if !heldWithCallers(w, c, isMutexVal, depth+1) {
+						okAll = false
+					}
+					continue
+				}
+				h := c.Common().StaticCallee()
+				idx := -1
+				for i, a := range c.Common().Args {
+					if a == ssa.Value(mc) {
+						idx = i
+					}
+				}
+				if h == nil || !inModule(h) || idx < 0 || idx >= len(h.Params) || len(h.Blocks) == 0 {
+					okAll = false
+					continue
+				}
+				// inside h: every call of that parameter lies in h's lock region, and the parameter goes nowhere else
+				hregion, _ := lockRegion(h, isMutexVal)
+				ncall := 0
+				if refs := h.Params[idx].Referrers(); refs != nil {
+					for _, r2 := range *refs {
+						hc, ok := r2.(ssa.CallInstruction)
+						if ok && hc.Common().Value == ssa.Value(h.Params[idx]) {
+							if _, isGo := hc.(*ssa.Go); isGo || !hregion[hc] {
+								okAll = false
+							}
+							ncall++
+							continue
+						}
+						if _, isDbg := r2.(*ssa.DebugRef); !isDbg {
+							okAll = false
+						}
+					}
+				}
+				if ncall == 0 {
+					okAll = false
+				}
+			}
+		})
+		return nuse > 0 && okAll
 	}
 	n := 0
 	for caller := range allModuleFuncs(w, w.SSA()) {
